@@ -34,6 +34,7 @@ MODULES = {
     'C11': 'harness.c11',
     'C12': 'harness.c12',
     'C13': 'harness.c13',
+    'C15': 'harness.c15',
     'C19': 'harness.c19',
 }
 
